@@ -73,6 +73,9 @@ def cases(tier, seed):
     for entry in ("load", "hist", "trees-binned") if tier == "quick" else ENTRIES:
         for focus in range(NPOOLS[entry]):
             out.append(dict(entry=entry, npatch=9, W=2, focus=focus, closed="right", seed=seed))
+    # patch ids with two digits
+    out.append(dict(entry="load", npatch=12, W=2, focus=0, closed="right", seed=seed))
+    out.append(dict(entry="hist", npatch=12, W=2, focus=0, closed="right", seed=seed))
     # what is handed to the workers (pickled) must mean the same on the other side
     for method, closed, cosmo, unit in itertools.product(("linear", "comoving", "logspace", "custom"), ("right", "left"),
                                                        ("Planck15", "WMAP9", "inst:WMAP7", "custom"), ("deg", "kpc")):
